@@ -109,7 +109,7 @@ def gen_ingress_objs(r, W, stress_target=False):
             d = ing_backend()
         objs.append({'kind': 'Ingress', 'ns': s['ns'] if r.random() < 0.9 else r.choice(nss), 'name': 'ing%d' % (i if r.random() < 0.9 else 0),
                      'default': d, 'rules': rules})
-    for i in range(r.choice([0, 0, 1, 2])):
+    for i in range(r.choice([0, 1, 1, 2])):
         s = r.choice(svcs)
         sp = r.choice(s['ports'])
         y = r.random()
